@@ -354,6 +354,21 @@ pub fn history_strategy() -> impl Strategy<Value = History> {
     (proptest::collection::vec(sec_strategy(), 1..6), gen::tape(60)).prop_map(|(secs, tape)| History { secs, tape })
 }
 
+/// Many updates over the same few numbers: more sections than the file has object numbers (the property says "any number
+/// of incremental updates").  Half of the histories use classic tables only, so that /Size does not grow with the chain.
+pub fn long_history_strategy() -> impl Strategy<Value = History> {
+    (proptest::collection::vec(sec_strategy(), 6..48), any::<bool>(), gen::tape(60)).prop_map(|(mut secs, classic_only, tape)| {
+        for s in secs.iter_mut() {
+            s.acts.truncate(3);
+            if classic_only {
+                s.stream_format = false;
+                s.acts = s.acts.drain(..).map(|(sel, a)| (sel, match a { Act::Compressed(v) => Act::Direct(v), a => a })).collect();
+            }
+        }
+        History { secs, tape }
+    })
+}
+
 pub fn run_case(h: &History, info: &mut CaseInfo) -> Result<(), Failure> {
     let r = render(h);
     for l in &r.labels {
@@ -376,6 +391,11 @@ pub fn replay(_ctx: &Ctx, _check: &str, art: &serde_json::Value, info: &mut Case
 pub fn run(ctx: &Ctx) {
     let cases = ctx.tier.pick(6_000, 400_000);
     ctx.run_cases("histories", cases, history_strategy, |h, info| run_case(h, info));
+    let lcases = ctx.tier.pick(1_500, 60_000);
+    ctx.run_cases("long-histories", lcases, long_history_strategy, |h, info| {
+        info.label(format!("sections/{}x", h.secs.len() / 10 * 10));
+        run_case(h, info)
+    });
     // bounded exhaustive: all histories of <= 3 sections over 2 numbers x {none, direct, compressed, free} x 2 formats
     let per_sec: u64 = 2 * 4 * 4; // format x action(obj A) x action(obj B)
     let total = per_sec + per_sec * per_sec + per_sec * per_sec * per_sec;
@@ -419,4 +439,4 @@ pub fn run(ctx: &Ctx) {
     );
 }
 
-pub const RULE: &str = "cases = update histories of 1-5 sections over object numbers 1..12 (each section: classic table or xref stream, partial map number -> direct value | compressed value | free, random subsection splitting, /Size slack, filtered object/xref streams), written by the harness's own writer; plus all histories of <=3 sections over 2 numbers x 4 actions x 2 formats exhaustively; oracle = fold of the sections oldest->newest: resolve(n) for every n in 0..Size+2 equals the newest value or is a free/missing error, trailer /ID and /Size are the newest section's, get_page reaches the newest page; both cached and uncached; non-trivial = >=2 sections and a number mentioned in >=2 of them; distinct by file bytes";
+pub const RULE: &str = "cases = update histories of 1-5 sections over object numbers 1..12 (each section: classic table or xref stream, partial map number -> direct value | compressed value | free, random subsection splitting, /Size slack, filtered object/xref streams), written by the harness's own writer; plus long histories of 6-47 sections with <=3 actions each (half of them classic tables only, so that the chain is longer than /Size); plus all histories of <=3 sections over 2 numbers x 4 actions x 2 formats exhaustively; oracle = fold of the sections oldest->newest: resolve(n) for every n in 0..Size+2 equals the newest value or is a free/missing error, trailer /ID and /Size are the newest section's, get_page reaches the newest page; both cached and uncached; non-trivial = >=2 sections and a number mentioned in >=2 of them; distinct by file bytes";
